@@ -125,6 +125,8 @@ type PktSpec struct {
 	// BodyFirst (real clients only): build the packet with the body option before the
 	// header option, which leaves the header's length field stale until it is written.
 	BodyFirst bool `json:"body_first,omitempty"`
+	// Only (real client): sent with Client.SendOnly; its reply stays on the stream for a later Send
+	Only bool `json:"only,omitempty"`
 }
 
 // BodySpec is a value of one of the seven bodies in a neutral form, or raw bytes.
